@@ -1,0 +1,8 @@
+//go:build verif
+
+package ch
+
+import "net"
+
+// VerifNetConn exposes the connection the client was created over.
+func (c *Client) VerifNetConn() net.Conn { return c.conn }
